@@ -1,0 +1,11 @@
+//go:build !verif
+
+package protocol
+
+// No-op stubs; the real implementations live in verif_on.go behind the
+// "verif" build tag and are only used by external verification harnesses.
+
+func (p *Protocol) verifTransition(Message, State, error) {}
+func (p *Protocol) verifHandler(Message)                  {}
+func (p *Protocol) verifRecvAccounted(State, int, int)    {}
+func (p *Protocol) verifRecvReleased()                    {}
